@@ -54,7 +54,11 @@ func (x *g) genService(i int, used map[string]bool) {
 		if x.o.Profile == "security" {
 			n = 2
 		}
-		switch x.r.Intn(n) {
+		k := x.r.Intn(n)
+		if x.o.Profile == "security" && len(x.s.API.Security) > 0 && x.chance(1, 2) {
+			k = 0 // API-level AND service-level requirements: the service's win for its methods
+		}
+		switch k {
 		case 0:
 			sv.Security = x.genRequirements(2)
 			x.s.AddFeature("service-security")
